@@ -5,7 +5,7 @@ import numpy as np
 import pandas as pd
 import verde as vd
 
-REDUCTIONS = {"mean": np.mean, "median": np.median, "min": np.min, "max": np.max}
+REDUCTIONS = {"mean": np.mean, "median": np.median, "min": np.min, "max": np.max, "average": np.average}
 
 
 def quiet(fn, *a, **k):
@@ -152,6 +152,44 @@ def present(a, how):
 
 
 CONTAINERS = ["array", "array", "array", "series", "series_rev"]
+
+
+def plain_flag(case):
+    """Whether whole-number scalars of this case (region bounds, spacings, sizes, pads) are handed to verde as Python ints instead of
+    floats: a pure function of the case (a third of them)."""
+    import hashlib
+    import json
+
+    return hashlib.sha1(json.dumps(case, sort_keys=True, default=str).encode()).digest()[1] % 3 == 0
+
+
+def plain(v, on=True):
+    """v as a Python int when it is a whole number (and `on`), else unchanged; lists and tuples element-wise"""
+    if isinstance(v, (list, tuple)):
+        return type(v)(plain(x, on) for x in v)
+    return int(v) if on and isinstance(v, float) and v.is_integer() and abs(v) < 2**53 else v
+
+
+TABLES = [None, None, None, "en", "ne", "rev", "rows"]
+
+
+def table_views(e, n, how):
+    """1-D easting and northing as views of ONE 2-D table (columns of an (n, 2) array in either order, reversed rows, or
+    rows of a (2, n) array) - what `table[:, 0], table[:, 1]` or `*table.T` hand over.  Other shapes are returned unchanged."""
+    e, n = np.asarray(e), np.asarray(n)
+    if how is None or e.ndim != 1 or e.dtype != n.dtype:
+        return e, n
+    if how == "en":
+        t = np.column_stack([e, n])
+        return t[:, 0], t[:, 1]
+    if how == "ne":
+        t = np.column_stack([n, e])
+        return t[:, 1], t[:, 0]
+    if how == "rev":
+        t = np.column_stack([e[::-1], n[::-1]])
+        return t[::-1, 0], t[::-1, 1]
+    t = np.vstack([e, n])
+    return t[0], t[1]
 
 
 # how a scalar-or-sequence argument (extra_coords, region, shape, spacing, points, sizes...) is handed to verde
